@@ -578,13 +578,15 @@ def returns_with_atoms(fn, watch, limit=20000):
     return out, rets
 
 
-def escapes_const(fn, start_bid, is_pass, exempt_edge=None, target_expr=None, init_env=None, limit=20000):
+def escapes_const(fn, start_bid, is_pass, exempt_edge=None, target_expr=None, init_env=None, limit=20000, track_mem=(), call_kills=None):
     """Like escapes(), starting at the head of block start_bid, but path-sensitive in the integer constants last assigned
     to local variables: a branch on `v`, `!v`, `v == K`, `v != K`, `v < K`, `v >= K` whose outcome is decided by the
     constant held by v is followed only along the decided edge.  Returns None or the list of (block, line) of a path
-    that reaches target_expr without an element satisfying is_pass."""
+    that reaches target_expr without an element satisfying is_pass.  track_mem: texts of member expressions (`ssl->err`)
+    tracked like locals; any call kills them (the callee may store the field)."""
     import re
     seen = set()
+    track_mem = set(track_mem)
     stack = [(start_bid, frozenset((init_env or {}).items()), [(start_bid, None)])]
     while stack and len(seen) < limit:
         bid, envf, path = stack.pop()
@@ -610,6 +612,11 @@ def escapes_const(fn, start_bid, is_pass, exempt_edge=None, target_expr=None, in
                     r = strip(m["r"])
                     while r is not None and r.get("k") == "cast":
                         r = strip(r["e"])
+                    if tgt is not None and tgt.get("k") == "mem" and track_mem and ftext(tgt) in track_mem:
+                        if r is not None and r.get("k") == "int":
+                            env[ftext(tgt)] = r["v"]
+                        else:
+                            env.pop(ftext(tgt), None)
                     if tgt is not None and tgt.get("k") == "var" and tgt.get("sc") == "l":
                         if r is not None and r.get("k") == "int":
                             env[tgt["n"]] = r["v"]
@@ -632,6 +639,9 @@ def escapes_const(fn, start_bid, is_pass, exempt_edge=None, target_expr=None, in
                     if tgt is not None and tgt.get("k") == "var":
                         env.pop(tgt.get("n"), None)
                 elif m.get("k") == "call":
+                    if call_kills is None or call_kills(m):
+                        for tm in track_mem:
+                            env.pop(tm, None)
                     for a in m.get("a", []):
                         a0 = strip(a)
                         if a0 is not None and a0.get("k") == "un" and a0["op"] == "&" and (strip(a0["e"]) or {}).get("k") == "var":
@@ -648,7 +658,7 @@ def escapes_const(fn, start_bid, is_pass, exempt_edge=None, target_expr=None, in
             feasible = True
             if t is not None and "c" in t and len(b["succ"]) == 2:
                 for (txt, tr, nd) in _cond_atoms(t["c"], k == 0):
-                    m = re.match(r"^\((\w+) (==|!=|<|<=|>|>=) (-?\d+)\)$", txt)
+                    m = re.match(r"^\(([\w>.-]+) (==|!=|<|<=|>|>=) (-?\d+)\)$", txt)
                     if m and m.group(1) in env:
                         v, op, kk = env[m.group(1)], m.group(2), int(m.group(3))
                         val = {"==": v == kk, "!=": v != kk, "<": v < kk, "<=": v <= kk, ">": v > kk, ">=": v >= kk}[op]
